@@ -261,6 +261,7 @@ pub fn plan(prop: &str, tier: Tier) -> Option<Plan> {
             s2::add_entry_sweep(&mut p, q);
             s2::add_lane_phase(&mut p, q, &BACKENDS);
             s3::add_grids(&mut p, q, false);
+            s2::add_long_fields(&mut p, q, &BACKENDS, &[]);
             s8::add_families(&mut p, q);
         }
         "C02" => {
@@ -269,6 +270,7 @@ pub fn plan(prop: &str, tier: Tier) -> Option<Plan> {
             stretched(&mut p, "C02", &all_hdr, &[9, 17, 33], if q { 4 } else { 5 }, if q { 3 } else { 4 }, &multi_req, &multi_resp, &BACKENDS);
             s2::add_prefix_sweep(&mut p, q, &BACKENDS);
             s2::add_field_prefix_sweep(&mut p, q, &BACKENDS);
+            s2::add_long_fields(&mut p, q, &BACKENDS, &[]);
         }
         "C03" => {
             p.armed = O_FRAMING;
@@ -276,6 +278,7 @@ pub fn plan(prop: &str, tier: Tier) -> Option<Plan> {
             s2::add_repetition_sweep(&mut p, q);
             all_areas(&mut p, "C03", &all_hdr, &[0, 1, 2, 16], if q { 6 } else { 8 }, if q { 4 } else { 6 }, if q { 5 } else { 7 }, 1, &multi_req, &multi_resp);
             s2::add_template_mutations(&mut p, q, &[Backend::Native]);
+            s2::add_long_fields(&mut p, q, &BACKENDS, &[]);
         }
         "C04" => {
             p.armed = O_ZEROCOPY;
@@ -285,6 +288,7 @@ pub fn plan(prop: &str, tier: Tier) -> Option<Plan> {
             stretched(&mut p, "C04", &all_hdr, &[9, 17, 33], if q { 4 } else { 5 }, if q { 3 } else { 4 }, &multi_req, &multi_resp, &BACKENDS);
             s2::add_template_mutations(&mut p, q, &[Backend::Native]);
             s8::add_families(&mut p, q);
+            s2::add_long_fields(&mut p, q, &BACKENDS, &[]);
         }
         "C05" => {
             p.armed = O_HYGIENE;
@@ -295,6 +299,7 @@ pub fn plan(prop: &str, tier: Tier) -> Option<Plan> {
             s2::add_lane_phase(&mut p, q, &BACKENDS);
             s2::add_pair_sweeps(&mut p, q, &BACKENDS, &[]);
             s2::add_utf8_sweep(&mut p, q, &BACKENDS);
+            s2::add_long_fields(&mut p, q, &BACKENDS, &[]);
         }
         "C06" => {
             p.armed = O_LANG;
@@ -321,6 +326,7 @@ pub fn plan(prop: &str, tier: Tier) -> Option<Plan> {
             s2::add_pair_sweeps(&mut p, q, &BACKENDS, &["method", "target"]);
             s2::add_utf8_sweep(&mut p, q, &BACKENDS);
             s2::add_templates_for(&mut p, q, &BACKENDS, "request");
+            s2::add_long_fields(&mut p, q, &BACKENDS, &["method", "target"]);
         }
         "C07" => {
             p.armed = O_LANG;
@@ -346,6 +352,7 @@ pub fn plan(prop: &str, tier: Tier) -> Option<Plan> {
             s2::add_field_sweeps(&mut p, q, &BACKENDS, &["reason", "code"]);
             s2::add_pair_sweeps(&mut p, q, &BACKENDS, &["reason"]);
             s2::add_templates_for(&mut p, q, &BACKENDS, "response");
+            s2::add_long_fields(&mut p, q, &BACKENDS, &["reason"]);
         }
         "C08" => {
             p.armed = O_LANG;
@@ -364,6 +371,7 @@ pub fn plan(prop: &str, tier: Tier) -> Option<Plan> {
             s2::add_field_sweeps(&mut p, q, &BACKENDS, &["header-name", "header-value"]);
             s2::add_pair_sweeps(&mut p, q, &BACKENDS, &["header-name", "header-value"]);
             s2::add_templates_for(&mut p, q, &BACKENDS, "headers");
+            s2::add_long_fields(&mut p, q, &BACKENDS, &["header-name", "header-value"]);
         }
         "C09" => {
             p.armed = O_LANG | O_FRAMING;
@@ -374,12 +382,14 @@ pub fn plan(prop: &str, tier: Tier) -> Option<Plan> {
             p.bounds.push(format!("S1: chunk size Σ(14)^≤{d} after 0/14/15/16/17 leading digits, E=1"));
             s2::add_chunk_sweeps(&mut p, q);
             s2::add_pair_sweeps(&mut p, q, &[Backend::Native], &["chunk-ext"]);
+            s2::add_long_fields(&mut p, q, &[Backend::Native], &["chunk-ext"]);
         }
         "C10" => {
             p.armed = O_ERRKIND;
             all_areas(&mut p, "C10", &all_hdr, &[0, 1, 2], if q { 6 } else { 8 }, if q { 4 } else { 6 }, 2, 0, &multi_req, &multi_resp);
             s2::add_template_mutations(&mut p, q, &[Backend::Native]);
             s2::add_header_count_sweep(&mut p, q);
+            s2::add_long_fields(&mut p, q, &BACKENDS, &[]);
         }
         "C11" => {
             p.armed = O_PARTIAL;
@@ -388,6 +398,7 @@ pub fn plan(prop: &str, tier: Tier) -> Option<Plan> {
             all_areas(&mut p, "C11", &all_hdr, &[1, 16], if q { 6 } else { 8 }, if q { 4 } else { 6 }, if q { 5 } else { 7 }, 0, &multi_req, &multi_resp);
             s2::add_prefix_sweep(&mut p, q, &[Backend::Native]);
             s2::add_field_prefix_sweep(&mut p, q, &[Backend::Native]);
+            s2::add_long_fields(&mut p, q, &[Backend::Native], &[]);
             s2::add_chunk_sweeps(&mut p, q);
         }
         "C14" => {
@@ -408,6 +419,7 @@ pub fn plan(prop: &str, tier: Tier) -> Option<Plan> {
                 }
             }
             s2::add_option_templates(&mut p, q);
+            s2::add_long_fields(&mut p, q, &BACKENDS, &["header-name", "header-value"]);
         }
         "C15" => {
             p.armed = 0;
@@ -484,6 +496,7 @@ pub fn plan(prop: &str, tier: Tier) -> Option<Plan> {
             stretched(&mut p, "C19", &all_hdr, &[17, 33], 4, 3, &multi_req, &multi_resp, &BACKENDS);
             s2::add_entry_sweep(&mut p, q);
             s8::add_families(&mut p, q);
+            s2::add_long_fields(&mut p, q, &[Backend::Native], &[]);
         }
         "C20" => {
             p.armed = O_LINEAR;
@@ -491,6 +504,7 @@ pub fn plan(prop: &str, tier: Tier) -> Option<Plan> {
             stretched(&mut p, "C20", &all_hdr, &[17, 33], 4, 3, &multi_req, &multi_resp, &BACKENDS);
             s8::add_families(&mut p, q);
             s8::add_scaling(&mut p, q);
+            s2::add_long_fields(&mut p, q, &[Backend::Native], &[]);
         }
         "C12" => {
             p.armed = 0;
